@@ -26,6 +26,8 @@ static std::string oracle(const Case& c) {
             if (sb != model::CHECKSUM) return "phrase for coin " + std::to_string(a) + " decoded with coin " + std::to_string(b) + " returns " + model::status_name(sb) + " instead of CHECKSUM";
             n++;
             if (!row || (b % 64) == (a % 64)) { // the auto decoder and the word-by-word difference (sampled in row mode)
+                // the verdict does not depend on the allocator: a wrong coin is a checksum error even when no memory is available
+                { k.fail_all = true; int sf = lib::decode_x(pa, b, le->lang); k.fail_all = false; if (sf != model::CHECKSUM) return "phrase for coin " + std::to_string(a) + " decoded with coin " + std::to_string(b) + " while the allocator fails returns " + model::status_name(sf) + " instead of CHECKSUM"; }
                 int sa = lib::decode_auto(pa, b); if (sa == model::OK) return "decode (auto) accepts the phrase for coin " + std::to_string(a) + " with coin " + std::to_string(b);
                 auto tb = lib::tokens(lib::encode(s, le->lang, b));
                 if (tb.size() != 16 || ta.size() != 16) return "phrase does not have 16 tokens";
